@@ -755,6 +755,7 @@ func c19Requests2(c *vc.Ctx, idx int) {
 		c.Count("request_history_blocks", 1)
 		c.Nontrivial("request history: block message ok=%v weights=%d thresholds=%d unlocks=%d", h.blk.BlockOK, len(h.ops.Reqs.Locking.UpdateWeights), len(h.ops.Reqs.Locking.UpdateThresholds), len(h.ops.unlocks))
 	}
+	h.closing(func() { c.Eval(1) })
 	c.Sample(map[string]any{"request_history": true, "validators": nv, "blocks": h.ch.Height, "last_ops": lastN(h.opsLog, 3)})
 }
 
